@@ -653,3 +653,52 @@ Proof.
   assert (He : 0 < (p + 1) / 4) by (apply Z.div_str_pos; lia).
   rewrite pymodpow_spec by lia. rewrite Z.pow_0_l by lia. rewrite Z.mod_0_l by lia. reflexivity.
 Qed.
+
+(* ---- the public pair however it is presented (tuple, list, Point of any curve) ------------------- *)
+Definition mk_arg (k : presentation) (x y : option Z) : pair_arg := {| pa_kind := k; pa_x := x; pa_y := y |}.
+
+(* acceptance and result depend only on the coordinates and the KEY's curve, never on the presentation *)
+Lemma key_public_arg_presentation_independent (p a b : Z) (k1 k2 : presentation) (x y : option Z) :
+  key_public_arg p a b (mk_arg k1 x y) = key_public_arg p a b (mk_arg k2 x y).
+Proof. reflexivity. Qed.
+
+(* exact characterisation: accepted iff both coordinates are integers, on the key's curve, in [0, p) *)
+Lemma key_public_arg_spec (p a b : Z) (pa : pair_arg) :
+  (forall q, key_public_arg p a b pa = Ret q ->
+     exists x y, pa_x pa = Some x /\ pa_y pa = Some y /\ q = (x, y) /\
+       contains_point p a b x y = true /\ 0 <= x < p /\ 0 <= y < p) /\
+  ((forall x y, pa_x pa = Some x -> pa_y pa = Some y ->
+      ~ (contains_point p a b x y = true /\ 0 <= x < p /\ 0 <= y < p)) ->
+   key_public_arg p a b pa = Raise E_PUBPAIR) /\
+  (forall x y, pa_x pa = Some x -> pa_y pa = Some y ->
+     contains_point p a b x y = true -> 0 <= x < p -> 0 <= y < p ->
+     key_public_arg p a b pa = Ret (x, y)).
+Proof.
+  destruct pa as [k [x|] [y|]]; unfold key_public_arg; cbn [pa_x pa_y];
+    try (split; [intros q H; discriminate|split; [reflexivity|intros x' y' Ex Ey; discriminate]]).
+  split; [|split].
+  - intros q H. destruct (key_public_ret_inv _ _ _ _ _ H) as (-> & Hc & Hx & Hy).
+    exists x, y. cbn [fst snd] in *. repeat split; try reflexivity; try assumption; lia.
+  - intros H. apply key_public_iff. apply H; reflexivity.
+  - intros x' y' Ex Ey Hc Hx Hy. injection Ex as <-. injection Ey as <-. apply key_public_iff. repeat split; try assumption; lia.
+Qed.
+
+(* a Point object that belongs to ANOTHER curve and is not on the key's curve is refused, although it
+   was validated (against its own curve) when it was built; so is the point at infinity *)
+Lemma foreign_point_refused (p a b cp ca cb x y : Z) :
+  contains_point cp ca cb x y = true -> contains_point p a b x y = false ->
+  point_wf (mk_arg (Pr_point cp ca cb) (Some x) (Some y)) /\
+  key_public_arg p a b (mk_arg (Pr_point cp ca cb) (Some x) (Some y)) = Raise E_PUBPAIR.
+Proof.
+  intros Hown Hkey. split; [exact Hown|]. unfold key_public_arg. cbn [mk_arg pa_x pa_y].
+  apply key_public_iff. rewrite Hkey. intros (H & _). discriminate.
+Qed.
+
+Lemma infinity_refused (p a b : Z) (k : presentation) :
+  key_public_arg p a b (mk_arg k None None) = Raise E_PUBPAIR.
+Proof. reflexivity. Qed.
+
+(* non-vacuity: a point of y^2 = x^3 + 3 over the field of secp256k1 is a well-formed foreign Point *)
+Lemma foreign_point_example :
+  contains_point k1_p 0 3 1 2 = true /\ contains_point k1_p k1_a k1_b 1 2 = false.
+Proof. split; vm_compute; reflexivity. Qed.
